@@ -446,13 +446,35 @@ pub fn run_c12(ctx: &Ctx, rng: &mut Rng, tier: Tier, bin: &str) -> Outcome {
 }
 
 // ------------------------------------------------------------------------------------ C14
+/// The library's pattern in Python escape syntax, read token by token: a backslash starts an escape of the pattern syntax, so
+/// an escaped backslash is one token (what follows it is ordinary text: `\\u{2}` is a backslash and `u` twice) and `\u{h…}` is
+/// one token that Python writes `\uXXXX` / `\UXXXXXXXX`; every other character is copied.
 pub fn py_reference_rewrite(s: &str) -> String {
-    let re = regex::Regex::new(r"\\u\{([0-9a-f]+)\}").unwrap();
-    re.replace_all(s, |c: &regex::Captures| {
-        let v = u32::from_str_radix(&c[1], 16).unwrap_or(0);
-        if v <= 0xffff { format!("\\u{:04x}", v) } else { format!("\\U{:08x}", v) }
-    })
-    .to_string()
+    let cs: Vec<char> = s.chars().collect();
+    let mut out = String::new();
+    let mut i = 0;
+    while i < cs.len() {
+        if cs[i] == '\\' && i + 1 < cs.len() {
+            if cs[i + 1] == 'u' && i + 2 < cs.len() && cs[i + 2] == '{' {
+                let mut j = i + 3;
+                while j < cs.len() && cs[j].is_ascii_hexdigit() { j += 1; }
+                if j > i + 3 && j < cs.len() && cs[j] == '}' {
+                    let h: String = cs[i + 3..j].iter().collect();
+                    let v = u32::from_str_radix(&h, 16).unwrap_or(0);
+                    if v <= 0xffff { out.push_str(&format!("\\u{:04x}", v)) } else { out.push_str(&format!("\\U{:08x}", v)) }
+                    i = j + 1;
+                    continue;
+                }
+            }
+            out.push(cs[i]);
+            out.push(cs[i + 1]);
+            i += 2;
+            continue;
+        }
+        out.push(cs[i]);
+        i += 1;
+    }
+    out
 }
 
 pub fn run_c14(ctx: &Ctx, rng: &mut Rng, tier: Tier, ext_dir: Option<&str>, script: &str) -> Outcome {
@@ -469,6 +491,27 @@ pub fn run_c14(ctx: &Ctx, rng: &mut Rng, tier: Tier, ext_dir: Option<&str>, scri
     }
     let flags = gen::flag_rows(rng, &[0, 1, 2, 3, 4, 5, 6, 7, 8, 9, 10, 11, 12, 13]);
     let mut cases = vec![];
+    // text of the test cases that looks like an escape once it is printed: a backslash in front of `u` repeated (with -r the
+    // quantifier `{n}` follows the `u`), of hex digits, of braces — under -e, where the rewrite is applied
+    for n in [2usize, 3, 4, 9, 10, 11, 15, 16, 100] {
+        for pre in ["", "a", "\u{e9}", "\\"] {
+            for post in ["", "x", "\u{1f600}"] {
+                let t = format!("{}\\{}{}", pre, "u".repeat(n), post);
+                for extra in [0u32, mask(&[BIT_VERB]), mask(&[BIT_CAP]), mask(&[BIT_NO_START])] {
+                    let mut cfg = Cfg::new(gen::normalise_flags(mask(&[BIT_ESC, BIT_REP]) | extra));
+                    cfg.min_rep = 1;
+                    cases.push(Case { tcs: vec![t.clone()], cfg });
+                }
+            }
+        }
+    }
+    for t in ["\\u{e9}", "\\\\u{e9}", "\\u{2}", "\\ue9", "\\u{}", "\\u{1234567}", "\\U0001f600", "\\\u{e9}", "\\uu\\uu", "\\uu\\uuu"] {
+        for bits in [mask(&[BIT_ESC]), mask(&[BIT_ESC, BIT_REP]), mask(&[BIT_ESC, BIT_SUR]), mask(&[BIT_ESC, BIT_VERB])] {
+            let mut cfg = Cfg::new(gen::normalise_flags(bits));
+            cfg.min_rep = 1;
+            cases.push(Case { tcs: vec![t.to_string()], cfg });
+        }
+    }
     for (k, t) in pool.iter().enumerate() {
         for j in 0..(if quick { 3 } else { 6 }) {
             let mut bits = gen::normalise_flags(flags[(k + j * 3) % flags.len()]);
@@ -522,9 +565,8 @@ pub fn run_c14(ctx: &Ctx, rng: &mut Rng, tier: Tier, ext_dir: Option<&str>, scri
         if got != expect {
             o.oracle_fails.push((c.clone(), Fail::new(Kind::Differ, format!("Python returns {:?}; the library's {:?} in Python escape syntax is {:?}", got, r, expect), None)));
         }
-        if got.contains("\\u{") && c.cfg.has(BIT_ESC) {
-            o.oracle_fails.push((c.clone(), Fail::new(Kind::Syntax, format!("Python pattern {:?} still contains a Rust escape", got), None)));
-        }
+        // (a Rust escape left in the output differs from `expect`, which has none; the text `\\u{2}` behind an escaped backslash
+        // is not one)
         if let Some(ml) = &model_lines {
             o.model_compared += 1;
             let m = ml[i].strip_prefix("Y ").and_then(unhex).unwrap_or_default();
